@@ -608,3 +608,143 @@ pub fn library_result_identity_family() -> Vec<String> {
     out.push("IMPORT MOD \"MAP\"\ngroups <- MAP()\nMAP_INSERT(groups, 0, [])\nMAP_INSERT(groups, 1, [])\nn <- 0\nREPEAT 5 TIMES {\nn <- n + 1\nAPPEND(MAP_GET(groups, n MOD 2), n)\n}\nDISPLAY(MAP_GET(groups, 0))\nDISPLAY(MAP_GET(groups, 1))\nvs <- MAP_VALUES(groups, 0)\nAPPEND(vs[1], \"through values\")\nDISPLAY(LENGTH(MAP_GET(groups, 0)) + LENGTH(MAP_GET(groups, 1)))\n".to_string());
     out
 }
+
+// ---------------------------------------------------------------------------------------------
+// families added after the eleventh round
+
+/// JOIN of lists of every length 0 .. 3 over elements of every kind: the result is a text (its type is observed,
+/// not only its displayed form)
+pub fn join_result_type_family() -> Vec<String> {
+    let elems = ["5", "\"s\"", "TRUE", "NULL", "[1, 2]", "-0", "0.5", "\"\""];
+    let mut lists: Vec<String> = vec!["[]".into()];
+    for a in elems {
+        lists.push(format!("[{a}]"));
+        for b in ["5", "\"s\"", "[7]"] {
+            lists.push(format!("[{a}, {b}]"));
+        }
+    }
+    lists.push("[1, 2, 3]".into());
+    let mut out = vec![];
+    for l in &lists {
+        for sep in ["\",\"", "\"\"", "\" - \""] {
+            out.push(format!("IMPORT MOD \"STRING\"\nl <- {l}\nr <- JOIN(l, {sep})\nDISPLAY(r)\nDISPLAY(r == \"\" + r)\nDISPLAY(LENGTH(r))\nDISPLAY(r + 1)\nDISPLAY(TO_UPPER(r))\nIF (LENGTH(l) > 0) {{\nIF (LENGTH(\"\" + l[1]) > 2) {{\nDISPLAY(l[1] == r)\n}}\n}}\nDISPLAY(l)\n"));
+        }
+    }
+    out
+}
+
+/// every library procedure's result observed for its type as well as its text
+pub const TYPE_PROBE: &str = "DISPLAY(r == \"\" + r)\nDISPLAY(LENGTH(r))\n";
+
+/// a list stored into a list (APPEND, INSERT, index write, literal) is the list itself also when its contents equal
+/// those of the container or of another element at that moment
+pub fn stored_equal_contents_family() -> Vec<String> {
+    let mut out = vec![];
+    for (a, b) in [("[]", "[]"), ("[1, 2]", "[1, 2]"), ("[[]]", "[[]]"), ("[1]", "[2]"), ("[0]", "[-0]")] {
+        for store in ["APPEND(a, b)", "INSERT(a, 1, b)", "APPEND(a, 0)\na[LENGTH(a)] <- b", "a <- [b, b]", "APPEND(a, b)\nAPPEND(a, b)", "APPEND(a, a)"] {
+            for change in ["APPEND(b, \"later\")", "b[1] <- \"w\"", "APPEND(a[LENGTH(a)], \"through a\")"] {
+                if change.starts_with("b[1]") && b == "[]" {
+                    continue;
+                }
+                out.push(format!("a <- {a}\nb <- {b}\n{store}\nDISPLAY(LENGTH(a))\n{change}\nDISPLAY(LENGTH(a))\nDISPLAY(LENGTH(b))\nDISPLAY(b)\nDISPLAY(LENGTH(a[LENGTH(a)]))\n"));
+            }
+        }
+    }
+    out
+}
+
+/// numbers next to each other at every magnitude: == and != hold exactly when |a - b| is below the fixed tolerance
+pub fn near_equal_family() -> Vec<String> {
+    let mut out = vec![];
+    let bases = ["0.001", "0.3", "1", "1.1", "3.3", "100", "4096.5", "1000000", "10000000000000000", "123456789012", "0.000000001"];
+    let deltas = ["0", "0.0000000000000001", "0.0000000000000002", "0.0000000000000003", "0.0000000000000005", "0.000000000000001", "0.00000000000001", "0.000000001", "2", "0.5"];
+    for b in bases {
+        let mut body = String::new();
+        for d in deltas {
+            body.push_str(&format!("x <- {b}\ny <- {b} + {d}\nDISPLAY([x == y, x != y, y == x, x <= y, x >= y, x < y, NOT (x == y)])\nDISPLAY(y - x)\n"));
+        }
+        out.push(body);
+    }
+    out.push("DISPLAY(1.1 + 2.2 == 3.3)\nDISPLAY(0.1 + 0.2 == 0.3)\nDISPLAY(10000000000000002 != 10000000000000000)\nDISPLAY(100.1 + 200.2 == 300.3)\nDISPLAY(1.1 * 3 == 3.3)\n".to_string());
+    out
+}
+
+/// maps as values of maps (the map itself, another map, a list holding the map)
+pub fn map_of_maps_family() -> Vec<String> {
+    let mut out = vec![];
+    let pre = "IMPORT MOD \"MAP\"\nm <- MAP()\nother <- MAP()\nMAP_INSERT(other, \"o\", 1)\nal <- m\n";
+    for v in ["m", "al", "other", "[m]", "[other, m]", "MAP()"] {
+        out.push(format!("{pre}DISPLAY(\"start\")\nDISPLAY(MAP_INSERT(m, \"self\", {v}) == NULL)\nDISPLAY(MAP_CONTAINS_KEY(m, \"self\"))\nDISPLAY(LENGTH(MAP_KEYS(m, 0)))\nDISPLAY(MAP_INSERT(m, \"self\", 2) == NULL)\nDISPLAY(MAP_GET(m, \"self\"))\nDISPLAY(LENGTH(MAP_VALUES(other, 0)))\n"));
+        out.push(format!("{pre}PROCEDURE put(target, value) {{\nRETURN MAP_INSERT(target, \"k\", value)\n}}\nDISPLAY(put(m, {v}) == NULL)\nDISPLAY(MAP_CONTAINS_KEY(m, \"k\"))\nDISPLAY(MAP_CONTAINS_KEY(other, \"k\"))\n"));
+    }
+    out
+}
+
+/// a loop variable (or a parameter, or a local) of a called procedure named like a variable of the caller: the
+/// caller's variable is what it was after the call, whatever the callee did with its own
+pub fn callee_loop_variable_family() -> Vec<String> {
+    let mut out = vec![];
+    for body in [
+        "FOR EACH e IN [1, 2] {\nDISPLAY(e)\n}",
+        "FOR EACH e IN [1, 2] {\nBREAK\n}",
+        "FOR EACH e IN [] {\n}",
+        "FOR EACH e IN \"ab\" {\ne <- \"changed\"\n}",
+        "e <- 1\nFOR EACH e IN [5] {\n}\nDISPLAY(e)",
+        "FOR EACH e IN [1] {\nFOR EACH e IN [2] {\n}\n}",
+        "FOR EACH e IN [1, 2] {\nRETURN e\n}",
+        "REPEAT 2 TIMES {\ne <- 0\n}",
+        "IF (TRUE) {\ne <- 0\n}",
+    ] {
+        for caller in ["e <- \"outer\"", "e <- [9]", ""] {
+            out.push(format!("PROCEDURE work() {{\n{body}\nRETURN \"done\"\n}}\n{caller}\nDISPLAY(work())\nDISPLAY(e)\n"));
+            out.push(format!("PROCEDURE work() {{\n{body}\nRETURN \"done\"\n}}\nPROCEDURE outer() {{\n{caller}\nDISPLAY(work())\nRETURN e\n}}\nDISPLAY(outer())\n"));
+            out.push(format!("PROCEDURE work() {{\n{body}\nRETURN \"done\"\n}}\n{caller}\nFOR EACH e IN [\"x\", \"y\"] {{\nDISPLAY(work())\nDISPLAY(e)\n}}\nDISPLAY(e)\n"));
+        }
+    }
+    out
+}
+
+/// branches and bodies without braces followed by more of the same construct on the same line (ELSE, ELSE IF), and
+/// brace-less bodies as the very last thing of the input, with and without a final newline
+pub fn unbraced_continuation_family() -> Vec<String> {
+    let mut out = vec![];
+    for simple in ["BREAK", "CONTINUE", "DISPLAY(\"t\")", "x <- 1", "RETURN 1", "RETURN", "f()", "l[1] <- 2"] {
+        let in_loop = simple == "BREAK" || simple == "CONTINUE";
+        let in_proc = simple.starts_with("RETURN");
+        for tail in [" ELSE DISPLAY(\"e\")", " ELSE {\nDISPLAY(\"e\")\n}", " ELSE IF (FALSE) DISPLAY(\"ei\") ELSE DISPLAY(\"e2\")", "", "\nELSE DISPLAY(\"e\")"] {
+            for c in ["TRUE", "FALSE"] {
+                let stmt = format!("IF ({c}) {simple}{tail}");
+                let body = if in_loop { format!("REPEAT 2 TIMES {{\nDISPLAY(\"it\")\n{stmt}\nDISPLAY(\"after\")\n}}\n") } else if in_proc { format!("PROCEDURE g() {{\n{stmt}\nRETURN \"end\"\n}}\nDISPLAY(g())\n") } else { format!("{stmt}\n") };
+                out.push(format!("l <- [0]\nPROCEDURE f() {{\nDISPLAY(\"f\")\n}}\n{body}DISPLAY(\"done\")\n"));
+            }
+        }
+    }
+    // the very end of the input
+    for last in ["PROCEDURE g() RETURN 5", "PROCEDURE g() RETURN", "EXPORT PROCEDURE g() RETURN 5", "IF (TRUE) x <- 1", "REPEAT 2 TIMES x <- 1", "FOR EACH e IN [1] x <- e", "IF (FALSE) x <- 1 ELSE x <- 2", "PROCEDURE g() IF (TRUE) RETURN 1", "REPEAT UNTIL (TRUE) x <- 1", "PROCEDURE g() { RETURN 5 }", "REPEAT 1 TIMES BREAK", "REPEAT 1 TIMES CONTINUE"] {
+        for end in ["", "\n", " ", "  // c", ";", " ;\n", "\r\n"] {
+            out.push(format!("x <- 0\n{last}{end}"));
+        }
+    }
+    out
+}
+
+/// user modules with EXPORT at every nesting (top level, in an IF, in a loop, inside another procedure's body that the
+/// module's top level calls or does not call)
+pub fn nested_export_family() -> Vec<(String, String)> {
+    let mut out = vec![];
+    let libs = [
+        "DISPLAY(\"module top-level\")\nPROCEDURE setup() {\nEXPORT PROCEDURE inner() {\nRETURN \"inner\"\n}\nRETURN 1\n}\nsetup()\n",
+        "DISPLAY(\"module top-level\")\nPROCEDURE setup() {\nEXPORT PROCEDURE inner() {\nRETURN \"inner\"\n}\nRETURN 1\n}\n",
+        "DISPLAY(\"module top-level\")\nIF (TRUE) {\nEXPORT PROCEDURE inner() {\nRETURN \"inner\"\n}\n}\n",
+        "DISPLAY(\"module top-level\")\nIF (FALSE) {\nEXPORT PROCEDURE inner() {\nRETURN \"inner\"\n}\n}\n",
+        "DISPLAY(\"module top-level\")\nREPEAT 2 TIMES {\nEXPORT PROCEDURE inner() {\nRETURN \"inner\"\n}\n}\n",
+        "DISPLAY(\"module top-level\")\nEXPORT PROCEDURE outer() {\nEXPORT PROCEDURE inner() {\nRETURN \"inner\"\n}\nRETURN \"outer\"\n}\nDISPLAY(outer())\n",
+        "DISPLAY(\"module top-level\")\nEXPORT PROCEDURE outer() {\nPROCEDURE inner() {\nRETURN \"private inner\"\n}\nRETURN \"outer\"\n}\nDISPLAY(outer())\n",
+    ];
+    for lib in libs {
+        for imp in ["IMPORT MOD \"lib.ap\"", "IMPORT \"inner\" FROM MOD \"lib.ap\"", "IMPORT [\"inner\"] FROM MOD \"lib.ap\""] {
+            out.push((lib.to_string(), format!("DISPLAY(\"main\")\n{imp}\nDISPLAY(inner())\nDISPLAY(\"end\")\n")));
+        }
+    }
+    out
+}
